@@ -2,9 +2,10 @@
 // with `go build -overlay` as package github.com/pgavlin/dawn/cmd/verif_linewriter; not part of /repo.
 //
 // Output, one record per line, tab separated:
-//   C <stream> <driver input> <Go's canonical answer>     correspondence pair (tie 2)
-//   V <json>                                             the property's own predicate failed on the implementation
-//   S <json>                                             statistics of this run
+//
+//	C <stream> <driver input> <Go's canonical answer>     correspondence pair (tie 2)
+//	V <json>                                             the property's own predicate failed on the implementation
+//	S <json>                                             statistics of this run
 package main
 
 import (
@@ -31,7 +32,7 @@ func (r *rng) next() uint64 {
 	z = (z ^ (z >> 27)) * 0x94D049BB133111EB
 	return z ^ (z >> 31)
 }
-func (r *rng) below(n int) int    { return int(r.next() % uint64(n)) }
+func (r *rng) below(n int) int     { return int(r.next() % uint64(n)) }
 func (r *rng) chance(pct int) bool { return r.below(100) < pct }
 
 func hx(s string) string {
